@@ -247,13 +247,21 @@ def grep_forbidden(modules):
     """textual scan of the Lean sources of the given modules (and everything under VotelibModel/ and Lemmas/)"""
     import re
     hits = []
-    files = []
-    for root, _, fs in os.walk(LEAN):
-        if '.lake' in root or '.audit' in root:
+    # transitive closure of our own modules imported by the property's modules
+    seen, todo = set(), list(modules)
+    while todo:
+        m = todo.pop()
+        if m in seen:
             continue
-        for fn in fs:
-            if fn.endswith('.lean'):
-                files.append(os.path.join(root, fn))
+        path = os.path.join(LEAN, m.replace('.', os.sep) + '.lean')
+        if not os.path.exists(path):
+            continue
+        seen.add(m)
+        for line in open(path):
+            mm = re.match(r'\s*import\s+(\S+)', line)
+            if mm and mm.group(1).startswith(('Votelib', 'DriverMain')):
+                todo.append(mm.group(1))
+    files = [os.path.join(LEAN, m.replace('.', os.sep) + '.lean') for m in sorted(seen)]
     for f in files:
         in_block = False
         for ln, line in enumerate(open(f), 1):
